@@ -53,7 +53,13 @@ int vnaproperty_import_yaml_from_file(vnaproperty_t **rootptr, FILE *fp,
     vyml.vyml_error_fn = error_fn;
     vyml.vyml_error_arg = error_arg;
 
-    yaml_parser_initialize(&parser);
+    if (!yaml_parser_initialize(&parser)) {
+	errno = ENOMEM;
+	_vnaproperty_yaml_error(&vyml, VNAERR_SYSTEM,
+		"yaml_parser_initialize: %s: %s",
+		vyml.vyml_filename, strerror(errno));
+	return -1;
+    }
     yaml_parser_set_input_file(&parser, fp);
     if (!yaml_parser_load(&parser, &document)) {
 	_vnaproperty_yaml_error(&vyml, VNAERR_SYNTAX, "%s (line %ld) error: %s",
